@@ -6,7 +6,7 @@ ALL = ["C%02d" % i for i in range(1, 21)]
 
 # id -> (level category, technique, level text, level note, design ref)
 CHECKS = {
- "C01": ("exploration", "metamorphic multi-process replay + race detector",
+ "C01": ("exploration", "metamorphic multi-process replay (one replica serving API reads) + race detector",
          "Independent fresh daemon processes (different hash seeds, GOMAXPROCS, upstream delays, time zones; one under the race detector) replay forged chains built to contain exact ties (equal staking stakes incl. the top stake above the cap, equal oversubscribed bank requests, >100-entry blocks); canonical dumps of all ledger tables must be byte-identical. Sampling of schedules/hash seeds, not enumeration: held-on-K-executions.",
          "Trusted: the lab's forge/fake factomd/dumper (self-checked: forged chains are parsed and Merkle-verified by the daemon's own factom client). Compressed era heights; averaging window 12.",
          "DESIGN.md §3 C01"),
@@ -16,27 +16,27 @@ CHECKS = {
          "DESIGN.md §3 C02"),
  "C05": ("exploration", "metamorphic mutation of signed entries (bit flips + structural forgeries)",
          "Every single-bit flip of content/salt/RCD/signature of valid base entries (RCD-1 and RCD-e, transfer and conversion, salt window edges) plus structural forgeries are placed next to the originals; ledger with forgeries must equal ledger without; single-purpose senders give a direct positive control.",
-         "ed25519/secp256k1 libraries trusted; exact RCD-e activation height not judged.",
+         "ed25519/secp256k1 libraries trusted; the RCD-e boundary is judged as the pinned tree defines it (inert at the activation height itself). Mutations also insert/remove bytes of the content (whitespace at every position).",
          "DESIGN.md §3 C05"),
  "C06": ("exploration", "effect counting on single-purpose addresses + metamorphic first-occurrence-only replay",
-         "Entries repeated at every placement relative to holding/execution/rejection/restart, in four eras; number of effects read from final balances (0 or 1); chain with first occurrences only must give the same ledger.",
-         "Rejected-transfer-then-funded repeats judged as at-most-once only.",
+         "Entries repeated at every placement relative to holding/execution/rejection/restart, in five eras (incl. the per-height PEG bank before V4); number of effects read from final balances (0 or 1) and, for conversions, the credited amount must equal the one recorded execution; blocks also fail once and are applied again (failed dblock fetch / late statement failure); chain with first occurrences only must give the same ledger.",
+         "Every repeat must be inert, also after a rejection (the property's own observation point).",
          "DESIGN.md §3 C06"),
  "C08": ("exploration", "bounded-progress + crash monitor under a hostile-entry generator",
-         "31 kinds of hostile/malformed/duplicated entries on the three tracked chains are applied by the real daemon on top of adaptively forged ledgers in every era; a block must commit within 3 attempts and the process must survive (panics, log.Fatal and runtime fatals are observed, attributed and de-duplicated).",
+         "34 kinds of hostile/malformed/duplicated entries on the three tracked chains are applied by the real daemon on top of adaptively forged ledgers in every era; a block must commit within 3 attempts and the process must survive (panics, log.Fatal and runtime fatals are observed, attributed and de-duplicated).",
          "Healthy fake factomd/database; Factom-level malformations out of scope; liveness restated as bounded progress.",
          "DESIGN.md §3 C08"),
- "C09": ("exploration", "metamorphic restart placement (continuous vs restarted runs)",
+ "C09": ("exploration", "metamorphic restart placement (continuous vs restarted runs), incl. restarts around every activation",
          "Chains with ungraded blocks inside the averaging window and average-priced conversions are synced continuously and with clean restarts at chosen heights; per-height and final dumps must coincide. Thorough tier is exhaustive over single (gap, restart) placements in a 3-window span and adds chains at the real 288 window.",
          "Window shortened via the exported package variables except in the real-window chains; restart = cancel + new NewPegnetd on the same database.",
          "DESIGN.md §3 C09"),
- "C10": ("fault_enumeration", "single-fault injection at SQL statement / upstream request boundaries + differential ledger",
+ "C10": ("fault_enumeration", "single-fault injection at SQL statement / upstream request boundaries + operating-system write faults via strace + differential ledger",
          "One transient fault (statement returns an error instead of executing, or request answered by RPC error / HTTP 500 / truncated body / reset) per run on special blocks, plus sampled pairs; every state committed from the faulted block on must equal the fault-free reference; crash-stop after a fault is resumed by a fresh process. Quick = every distinct (call site, statement shape) and request kind; thorough = every index.",
-         "Faults only at boundaries where the real system can fail; transient by construction.",
+         "Faults only at boundaries where the real system can fail; transient by construction. strace injection counts per thread: an OS-level case may inject a short burst instead of one failure.",
          "DESIGN.md §3 C10"),
  "C03": ("exploration", "one-step reference-model monitor (two-pass funds rule) over adaptive workloads",
          "Well-signed batches with amounts at balance-1/balance/balance+1, several draws on one balance, self-credits, conversion-then-spend, zero and 2^63-1 amounts are considered by the real daemon on adaptively forged ledgers in every era; after each block every balance, the recorded status and the sign of every balance column are compared with the reference rule re-based on the observed previous state.",
-         "Reference rules written from the statement; fat2 parsing/signature validation trusted here (C05/C20 judge it).",
+         "Reference rules written from the statement; signatures/timestamps decided by fat2 here (C05 judges them), the form and amounts by the lab's strict reader. In every second profile blocks fail once and are applied again (failed dblock fetch / last statement before COMMIT, at every activation height); every third profile answers read-only API requests between blocks. The same holds for all one-step model checks (C04, C07, C11-C17).",
          "DESIGN.md §3 C03"),
  "C04": ("exploration", "one-step supply/balance conservation monitor against a reference model",
          "Per block and asset the observed supply delta must equal the sum of the block's issuance/destruction events computed by the reference rules, and every address/asset balance must equal the prediction (nobody else changes; debit == credits), on busy mixed workloads crossing all eras.",
@@ -74,17 +74,17 @@ CHECKS = {
          "Per batch status and recorded amounts vs. the reference verdict; folding all history rows plus row-less scheduled adjustments must reproduce every balance; get-transactions paged by address/hash/height/txid asc/desc must return each action exactly once with a correct count.",
          "Runs on chains that produce every verdict code; API on loopback.",
          "DESIGN.md §3 C17"),
- "C18": ("exploration", "Go race detector + differential ledger + committed-state history check (porcupine)",
+ "C18": ("exploration", "Go race detector + differential ledger + committed-state history check (porcupine) under hostile clients (hang-ups, failing reads)",
          "The real JSON-RPC server and the real sync loop run concurrently under -race with 12-32 clients cycling all read methods and injected delays; race reports with daemon frames, runtime fatals, ledger difference against the no-load run, and any response (part) that shows a height whose COMMIT was not yet issued are violations; histories are also checked with porcupine against a committed-height register model.",
-         "Schedules sampled; stale-but-committed answers are allowed (the property forbids uncommitted state, not staleness); cache-derived pUSD fields not compared.",
+         "Schedules sampled; stale-but-committed answers are allowed (the property forbids uncommitted state, not staleness); cache-derived pUSD fields, the global rich list and get-miner-distribution's stopheight are not compared (multi-read answers may mix two committed states). Impatient clients hang up mid-request; a few per mille of the API handlers' reads fail by injection; the sequential reference pass is judged too.",
          "DESIGN.md §3 C18"),
  "C19": ("exploration", "bounded-exhaustive session histories against the statement as oracle",
          "Histories of up to 3 sessions (build version incl. legacy, blocks synced by the real DBlockSync) x fork tables with a fork at every height within +-1 of a session boundary; every start is a real NewPegnetd; accept/refuse compared with the ground truth of which build synced which height; literal fork table included.",
-         "Legacy builds emulated by deleting their pn_sync_version rows; forks never below the genesis height.",
+         "Builds predating version tracking are emulated by deleting the pn_sync_version rows of their own heights and may occur at any position of a history; forks never below the genesis height.",
          "DESIGN.md §3 C19"),
  "C20": ("exploration", "differential generation-based fuzzing against a strict reference reader and exact arithmetic",
          "Grammar-generated and mutated batch contents (signed, so content rules decide) compared one-way with a strict FAT-2 reader, re-encode/decode round trips of every accepted batch, and decimal strings compared with big-integer conversion.",
-         "Case-variant keys, batch-level metadata, null amounts: recorded, not judged.",
+         "Case-variant keys, batch-level metadata, null amounts: recorded, not judged. Tickers must be written literally; outputs must add up to the input without wrap-around.",
          "DESIGN.md §3 C20"),
 }
 
